@@ -246,6 +246,89 @@ fn explore(api: &Api, setting_ix: usize, tier: Tier, seed: u64, cx: &mut Cx) {
     cx.add("random_values_compared", all_values.len() as u64);
 }
 
+/// long-lived objects: one in-memory ServerSetup (and in-memory password files, cloned per login) serves every sequence
+/// of up to 3 operations from a menu of registrations / logins for two credential ids and two users; each output must
+/// equal the output of the same operation on a freshly deserialized setup.  A cache inside the object (OnceCell,
+/// RefCell, lazily derived key) keyed by too little shows as a difference.
+fn long_lived(api: &Api, seed: u64, cx: &mut Cx) {
+    use crate::adapter::SrvOp;
+    let (p1, p2) = (setting(0), setting(1));
+    let fx = (|| -> Result<_, String> {
+        let mut t = Tape::seeded(seed, "c17/ll");
+        let setup = api.setup(&mut t).map_err(|e| format!("{:?}", e))?;
+        let r1 = flow::register(api, &mut t, &setup, &p1.pw, &p1.cid, None, None, None).map_err(|e| format!("{} {:?}", e.step, e.e))?;
+        let r2 = flow::register(api, &mut t, &setup, &p2.pw, &p2.cid, None, None, None).map_err(|e| format!("{} {:?}", e.step, e.e))?;
+        let (k1, _) = api.login_start(&mut t, &p1.pw).map_err(|e| format!("{:?}", e))?;
+        let (k2, _) = api.login_start(&mut t, &p2.pw).map_err(|e| format!("{:?}", e))?;
+        Ok((setup, r1, r2, k1, k2))
+    })();
+    let (setup, r1, r2, k1, k2) = match fx {
+        Ok(x) => x,
+        Err(e) => {
+            cx.violate_case("honest-step/error", e, json!({}));
+            return;
+        }
+    };
+    cx.context_done();
+    let files = vec![r1.file.clone(), r2.file.clone()];
+    let tp = |n: usize| Tape::new(&format!("seed{}/c17/ll/op{}", seed, n)).spec();
+    let menu: Vec<SrvOp> = vec![
+        SrvOp::Reg { req: r1.req.clone(), cid: p1.cid.clone() },
+        SrvOp::Reg { req: r1.req.clone(), cid: p2.cid.clone() },
+        SrvOp::Login { file: Some(0), ke1: k1.clone(), cid: p1.cid.clone(), ctx: None, tape: tp(2) },
+        SrvOp::Login { file: Some(1), ke1: k2.clone(), cid: p2.cid.clone(), ctx: Some(hex::encode(b"c")), tape: tp(3) },
+        SrvOp::Login { file: None, ke1: k1.clone(), cid: p1.cid.clone(), ctx: None, tape: tp(4) },
+        SrvOp::Login { file: None, ke1: k1.clone(), cid: p2.cid.clone(), ctx: None, tape: tp(5) },
+        SrvOp::Login { file: Some(0), ke1: k1.clone(), cid: p2.cid.clone(), ctx: None, tape: tp(6) },
+    ];
+    // reference: each operation alone on a fresh object
+    let mut alone = vec![];
+    for op in &menu {
+        match api.server_session(&setup, &files, std::slice::from_ref(op)) {
+            Ok(v) => alone.push(v[0].clone()),
+            Err(e) => {
+                cx.violate_case("honest-step/error", format!("{:?}", e), json!({}));
+                return;
+            }
+        }
+    }
+    let n = menu.len();
+    let mut seqs: Vec<Vec<usize>> = vec![];
+    for a in 0..n {
+        for b in 0..n {
+            seqs.push(vec![a, b]);
+            for c in 0..n {
+                seqs.push(vec![a, b, c]);
+            }
+        }
+    }
+    for sq in seqs {
+        cx.begin_case(json!({"long_lived_server_object": "one ServerSetup + in-memory password files", "operation_sequence": sq}));
+        if !cx.state(&("ll", &sq)) {
+            continue;
+        }
+        cx.edges += sq.len() as u64;
+        cx.path();
+        let ops: Vec<SrvOp> = sq.iter().map(|i| menu[*i].clone()).collect();
+        match api.server_session(&setup, &files, &ops) {
+            Ok(outs) => {
+                let mut ok = true;
+                for (k, i) in sq.iter().enumerate() {
+                    if outs[k] != alone[*i] {
+                        ok = false;
+                        cx.violate("long-lived-object/history-dependent", format!("operation #{} of the sequence {:?} on a long-lived ServerSetup gives a different result than on a freshly loaded one", k, sq));
+                    }
+                }
+                if ok {
+                    cx.outcome("long-lived-object-equals-fresh");
+                }
+            }
+            Err(e) => cx.violate("honest-step/error", format!("{:?}", e)),
+        }
+    }
+    cx.sample(json!({"suite": api.name(), "part": "long-lived server object", "menu": 7, "sequences": "all of length 2 and 3"}));
+}
+
 pub fn run(tier: Tier, seed: u64) -> i32 {
     let t0 = Instant::now();
     let mut items = vec![];
@@ -295,6 +378,73 @@ pub fn run(tier: Tier, seed: u64) -> i32 {
                     }
                     firsts.push((op, label, a));
                 }
+                // order independence: a menu of calls with DIFFERENT inputs (two users, two credential ids, two setups) is
+                // executed in three different orders in this one thread; every call must give the same output in every
+                // order.  A cache / memo / static keyed by too little makes a call's output depend on what ran before it.
+                {
+                    let p2 = setting(1);
+                    let fx2 = (|| -> Result<Fixture, String> {
+                        let mut t = Tape::seeded(seed, "c17/seq/fixture2");
+                        let setup = api.setup(&mut t).map_err(|e| format!("{:?}", e))?;
+                        let reg = flow::register(api, &mut t, &setup, &p2.pw, &p2.cid, None, None, None).map_err(|e| format!("{} {:?}", e.step, e.e))?;
+                        let (ke1, _) = api.login_start(&mut t, &p2.pw).map_err(|e| format!("{:?}", e))?;
+                        Ok(Fixture { p: p2.clone(), setup, sk: vec![], reg, ke1 })
+                    })();
+                    if let Ok(fx2) = fx2 {
+                        type Call<'a> = (String, Box<dyn Fn() -> Result<Vec<Vec<u8>>, String> + 'a>);
+                        let e = |x: crate::adapter::E| format!("{:?}", x);
+                        let lab = |n: &str| format!("seed{}/c17/order/{}", seed, n);
+                        let mut calls: Vec<Call> = vec![];
+                        for (fi, f) in [&fx, &fx2].into_iter().enumerate() {
+                            for (ci, cid) in [&fx.p.cid, &fx2.p.cid].into_iter().enumerate() {
+                                let (f, cid) = (f, cid.clone());
+                                let c2 = cid.clone();
+                                calls.push((format!("sreg_start(setup{}, req{}, cid{})", fi, fi, ci), Box::new(move || api.sreg_start(&Blob::n(&f.setup), &Blob::n(&f.reg.req), &cid).map(|x| vec![x]).map_err(e))));
+                                let l = lab(&format!("sl{}{}", fi, ci));
+                                let c3 = c2.clone();
+                                let l2 = l.clone();
+                                calls.push((format!("slogin_start(setup{}, file{}, cid{})", fi, fi, ci), Box::new(move || api.slogin_start(&mut Tape::new(&l), &Blob::n(&f.setup), Some(&Blob::n(&f.reg.file)), &Blob::n(&f.ke1), &c2, None, None, None).map(|(a, b)| vec![a, b]).map_err(e))));
+                                calls.push((format!("slogin_start(setup{}, no record, cid{})", fi, ci), Box::new(move || api.slogin_start(&mut Tape::new(&l2), &Blob::n(&f.setup), None, &Blob::n(&f.ke1), &c3, None, None, None).map(|(a, b)| vec![a, b]).map_err(e))));
+                            }
+                            let l = lab(&format!("rf{}", fi));
+                            calls.push((format!("reg_finish(user{})", fi), Box::new(move || api.reg_finish(&mut Tape::new(&l), &Blob::n(&f.reg.creg), &f.p.pw, &Blob::n(&f.reg.resp), None, None, None).map(|(a, b, c)| vec![a, b, c]).map_err(e))));
+                            let l = lab(&format!("rs{}", fi));
+                            calls.push((format!("reg_start(pw{})", fi), Box::new(move || api.reg_start(&mut Tape::new(&l), &f.p.pw).map(|(a, b)| vec![a, b]).map_err(e))));
+                            let l = lab(&format!("ls{}", fi));
+                            calls.push((format!("login_start(pw{})", fi), Box::new(move || api.login_start(&mut Tape::new(&l), &f.p.pw).map(|(a, b)| vec![a, b]).map_err(e))));
+                        }
+                        let n = calls.len();
+                        let orders: Vec<Vec<usize>> = vec![(0..n).collect(), (0..n).rev().collect(), (0..n).map(|i| (i * 7 + 3) % n).collect()];
+                        let mut seen: Vec<Option<Result<Vec<Vec<u8>>, String>>> = vec![None; n];
+                        for (oi, ord) in orders.iter().enumerate() {
+                            // (i*7+3) mod n is a permutation when gcd(7, n) = 1; otherwise fall back to a rotation
+                            let mut ord = ord.clone();
+                            let mut chk = ord.clone();
+                            chk.sort();
+                            chk.dedup();
+                            if chk.len() != n {
+                                ord = (0..n).map(|i| (i + n / 2) % n).collect();
+                            }
+                            for &ix in &ord {
+                                cx.begin_case(json!({"suite": api.name(), "check": "order independence", "order": oi, "call": calls[ix].0}));
+                                cx.edges += 1;
+                                let r = (calls[ix].1)();
+                                match &seen[ix] {
+                                    None => seen[ix] = Some(r),
+                                    Some(prev) => {
+                                        if prev != &r {
+                                            cx.violate(&format!("order-dependent/{}", calls[ix].0.split('(').next().unwrap_or("")), format!("{} gives a different output when other calls (with other inputs) ran before it: state leaks between calls", calls[ix].0));
+                                        } else {
+                                            cx.outcome("order-independent");
+                                        }
+                                    }
+                                }
+                            }
+                        }
+                        cx.state(&(api.name(), "order-independence"));
+                        cx.path();
+                    }
+                }
                 // and again after all the other operations ran in between
                 for (op, label, a) in firsts {
                     cx.begin_case(json!({"suite": api.name(), "op": op, "check": "same operation again after other operations, identical tape"}));
@@ -310,6 +460,7 @@ pub fn run(tier: Tier, seed: u64) -> i32 {
         })
     });
     tot.merge(fw::run_items("C17", &items, |(a, _)| a.name().to_string(), |(api, s), cx| explore(api, *s, tier, seed, cx)));
+    tot.merge(fw::run_items("C17", &apis, |a| a.name().to_string(), |api, cx| long_lived(api, seed, cx)));
     let rep = Report {
         property: "C17",
         tier,
